@@ -60,7 +60,7 @@ CASE_WALL_CAP = 120
 # helper -> (cases quick, cases thorough)
 N_CASES = {
     "S6PLL": (120, 1500), "S6DCM": (100, 1200), "S7PLL": (160, 2000), "S7MMCM": (160, 2000), "USPLL": (110, 1400), "USMMCM": (110, 1400),
-    "USPPLL": (110, 1400), "USPMMCM": (140, 1600), "ECP5PLL": (260, 2600), "iCE40PLL": (160, 2000), "NXPLL": (70, 700),
+    "USPPLL": (110, 1400), "USPMMCM": (90, 1000), "ECP5PLL": (260, 2600), "iCE40PLL": (160, 2000), "NXPLL": (70, 700),
     "CycloneIVPLL": (40, 400), "CycloneVPLL": (40, 400), "Cyclone10LPPLL": (40, 400), "Max10PLL": (40, 400),
     "GW1NPLL": (200, 2400), "GW2APLL": (120, 1400), "GW5APLL": (16, 160), "TRIONPLL": (100, 1200), "GateMatePLL": (60, 700),
 }
@@ -298,13 +298,15 @@ def gen_request(col, name, rng):
     clkin = gen_clkin(col, name, probe, rng)
     nmax = probe.nclkouts_max
     k = rng.choice([1, 1, 2, 2, 3, nmax, rng.randint(1, nmax)])
+    if name in ("GW1NPLL", "GW2APLL"):
+        k = rng.choices([1, 2, 3, 4], [5, 4, 2, 1])[0]      # rPLL has four pins with fixed ratios: most larger sets are unachievable
     k = max(1, min(k, nmax))
     if k == nmax:
         col.cov("boundary_kinds", "outputs:max")
     probe.clkin_freq = clkin
     fam = mon.family(probe)
     desc = mon.describe(probe, nouts=k) if fam not in ("GW1NPLL",) else None
-    mode = rng.choices(["achievable", "round", "random", "vco-edge"], [5, 3, 2, 1])[0]
+    mode = rng.choices(["achievable", "round", "random", "vco-edge"], [5, 3, 2, 1] if fam != "GW1NPLL" else [8, 1, 1, 0])[0]
     setting = None
     if fam == "ECP5PLL":
         # pfd*P with P = clkfb_div * feedback divider
@@ -373,7 +375,7 @@ def gen_request(col, name, rng):
             if rng.random() < 0.5:
                 f = float(round(f, -4))
         ph = rng.choice([0, 0, 0, 0, base_phase, 90, 180, 270, 45, 22.5, rng.randint(0, 359)])
-        if fam == "iCE40PLL":
+        if fam == "iCE40PLL" or (fam == "GW5APLL" and rng.random() < 0.7):
             ph = 0
         if fam == "GW1NPLL" and ph not in (0, base_phase):
             ph = base_phase
@@ -559,6 +561,8 @@ def cross_check(col, name, pll, req):
     desc = mon.describe(pll)
     if any(m <= 0 for f, p, m in desc["outs"]):
         return None, None                                # zero margin: exact float equality, not cross-checked (ASSUMPTIONS)
+    if fam == "GW5APLL" and any(p != 0 for f, p, m in desc["outs"]):
+        return None, None                                # this helper also refuses on phase resolution, which the search does not model
     if fam == "ECP5PLL":
         sol = model.ecp5_solve(desc)
         if sol is not None:
